@@ -1,5 +1,5 @@
 SPECIFICATION TSpec
 CONSTANTS
   Chains = {"A", "B"}
-CONSTANT Lite = FALSE
+CONSTANT Lite = TRUE
 CHECK_DEADLOCK FALSE
